@@ -266,18 +266,20 @@ func selfID() int {
 	return id
 }
 
+func initChild() {
+	log.Init([]byte{1, 2, 3, 4})
+	// the stages print progress with fmt.Println; the harness protocol owns the real stdout
+	if null, err := os.OpenFile(os.DevNull, os.O_WRONLY, 0); err == nil {
+		os.Stdout = null
+	}
+}
+
 // ---- one repetition (in the child process) ------------------------------------------------------
 
 var initOnce sync.Once
 
 func runOnce(s *scen) (outcome string, err error) {
-	initOnce.Do(func() {
-		log.Init([]byte{1, 2, 3, 4})
-		// the stages print progress with fmt.Println; the harness protocol owns the real stdout
-		if null, err := os.OpenFile(os.DevNull, os.O_WRONLY, 0); err == nil {
-			os.Stdout = null
-		}
-	})
+	initOnce.Do(func() { initChild() })
 	self := selfID()
 	baseline := map[int]bool{}
 	for _, g := range dump() {
@@ -495,12 +497,68 @@ func lastLines(s string, n int) string {
 }
 
 func exec1(line string) h.Result {
+	if strings.HasPrefix(line, "full ") {
+		return execFull(line)
+	}
 	s, err := parse(line)
 	if err != nil {
 		return h.Result{Impl: "error " + err.Error(), Class: "bad"}
 	}
+	seen := repeat(line, s.reps)
+	var outs []string
+	for o := range seen {
+		outs = append(outs, o)
+	}
+	sort.Strings(outs)
+	res := h.Result{Impl: strings.Join(outs, " | "), Class: s.p + " keep=" + s.keep, Nontrivial: s.cancels || s.pre}
+	for _, f := range s.feed {
+		if !strings.Contains(f[1], "c") {
+			res.Nontrivial = true
+		}
+	}
+	res.Oracle = oracle(s, outs)
+	return res
+}
+
+// execFull: a full-pipeline line; the comparison line is `clean` / `dirty`, the details go to the oracle
+func execFull(line string) h.Result {
+	f := parseFull(line)
+	seen := repeat(line, f.reps)
+	impl := "clean"
+	var bad []string
+	for o := range seen {
+		if o != "clean" {
+			impl = "dirty"
+			bad = append(bad, o)
+		}
+	}
+	sort.Strings(bad)
+	res := h.Result{Impl: impl, Class: "full " + f.p, Nontrivial: f.cancel != "never" && f.cancel != "" || f.fault != "none" && f.fault != "" || f.bt == 0}
+	if len(bad) > 0 {
+		o := bad[0]
+		switch {
+		case strings.HasPrefix(o, "crash="):
+			res.Oracle = strings.TrimPrefix(o, "crash=") + ": " + o + " in " + line
+		case strings.HasPrefix(o, "dirty"):
+			sig := "dirty"
+			if i := strings.Index(o, "leak="); i >= 0 {
+				l := strings.Fields(o[i+5:])
+				if len(l) > 0 && l[0] != "" && !strings.HasPrefix(l[0], "open=") {
+					sig = "leak@" + strings.SplitN(strings.Split(l[0], ",")[0], "*", 2)[0]
+				}
+			}
+			res.Oracle = sig + ": " + o + " in " + line
+		default:
+			res.Oracle = "harness-" + strings.SplitN(o, ":", 2)[0] + ": " + o + " in " + line
+		}
+	}
+	return res
+}
+
+// repeat runs a line reps times in child processes and counts the distinct outcomes
+func repeat(line string, reps int) map[string]int {
 	seen := map[string]int{}
-	remaining := s.reps
+	remaining := reps
 	for remaining > 0 {
 		cmd := exec.Command(os.Args[0], "exec", "C14")
 		var in bytes.Buffer
@@ -527,19 +585,7 @@ func exec1(line string) h.Result {
 			break
 		}
 	}
-	var outs []string
-	for o := range seen {
-		outs = append(outs, o)
-	}
-	sort.Strings(outs)
-	res := h.Result{Impl: strings.Join(outs, " | "), Class: s.p + " keep=" + s.keep, Nontrivial: s.cancels || s.pre}
-	for _, f := range s.feed {
-		if !strings.Contains(f[1], "c") {
-			res.Nontrivial = true
-		}
-	}
-	res.Oracle = oracle(s, outs)
-	return res
+	return seen
 }
 
 // oracle: the property itself on the observations. When the deadline fired (x / pre) and the
@@ -585,6 +631,13 @@ func oracle(s *scen, outs []string) string {
 var handedOff = map[string]bool{"dosnode.dispatchSign.out": true}
 
 func execLine(line string) h.Result {
+	if strings.HasPrefix(line, "child full ") {
+		o, err := runFullOnce(parseFull(strings.TrimPrefix(line, "child ")))
+		if err != nil {
+			return h.Result{Impl: "error " + h.OneLine(err.Error())}
+		}
+		return h.Result{Impl: o}
+	}
 	if strings.HasPrefix(line, "child ") {
 		s, err := parse(strings.TrimPrefix(line, "child "))
 		if err != nil {
